@@ -144,10 +144,29 @@ Inductive event :=
 | Sink (member : nat) (s : sev) (text : str)   (* member `member` of sink::sequence got sink(s, text) *)
 | Fault.                                   (* null pointer dereference (s->str() with s == nullptr) *)
 
-(* a logger type: logger<Record, Formatter, sink::sequence<S_0 … S_{m-1}>, Filter>.
+(* the Sink of a logger: a tree of sink::sequence<…> whose leaves are the user's sinks.
+   mkind: how a leaf's sink(severity, text) takes the text.  The model IGNORES it: sequence::sink passes the same
+   `const std::string&` to every member, so what a member does with its argument cannot affect the others. *)
+Inductive mkind :=
+| MConstRef     (* sink(severity_level, const std::string&) *)
+| MByValue      (* sink(severity_level, std::string) *)
+| MRvalue.      (* overloads for const std::string& and std::string&&, the latter adopting the buffer *)
+Inductive sinks :=
+| SLeaf (k : mkind)
+| SSeq (members : list sinks).     (* sink::sequence<members…>, possibly nested *)
+
+(* number of leaves; leaves are numbered 0, 1, … in declaration order (depth first, left to right) *)
+Fixpoint nleaves (t : sinks) : nat :=
+  match t with
+  | SLeaf _ => 1
+  | SSeq l => (fix go (l : list sinks) : nat := match l with [] => 0 | m :: r => nleaves m + go r end) l
+  end.
+
+(* a logger type: logger<Record, Formatter, Sink, Filter>.
    lg_rec identifies the Record type (its severity filters are severity_filter<Record, k>), lg_tagged says whether that
-   record type has a tag_attribute *)
-Record logger := mkLogger { lg_rec : nat; lg_tagged : bool; lg_filter : fexpr; lg_sinks : nat }.
+   record type has a tag_attribute, lg_sink is the sink tree *)
+Record logger := mkLogger { lg_rec : nat; lg_tagged : bool; lg_filter : fexpr; lg_sink : sinks }.
+Definition lg_sinks (lg : logger) : nat := nleaves (lg_sink lg).
 
 (* per binary: NITRO_LOG_MIN_SEVERITY and the user's Formatter (a function of the record) *)
 Record config := mkConfig { c_min : sev; c_fmt : record -> str }.
@@ -155,10 +174,31 @@ Record config := mkConfig { c_min : sev; c_fmt : record -> str }.
 (* sink::sequence<Sinks...>::sink — lang::tuple_foreach visits the members in declaration order *)
 Definition sink_seq (m : nat) (s : sev) (text : str) : list event :=
   map (fun i => Sink i s text) (seq 0 m).
+(* the same for a tree: a member that is itself a sequence forwards to ITS members in order before the next member of the
+   outer sequence is visited.  n is the number of the next leaf; returns the events and the next free number. *)
+Fixpoint sink_tree (t : sinks) (s : sev) (text : str) (n : nat) : list event * nat :=
+  match t with
+  | SLeaf _ => ([Sink n s text], S n)
+  | SSeq l =>
+      (fix go (l : list sinks) (n : nat) : list event * nat :=
+         match l with
+         | [] => ([], n)
+         | m :: r => let '(e1, n1) := sink_tree m s text n in
+                     let '(e2, n2) := go r n1 in (e1 ++ e2, n2)
+         end) l n
+  end.
+(* the kinds of the leaves in declaration order, and the flat sequence with the same leaves *)
+Fixpoint leaf_kinds (t : sinks) : list mkind :=
+  match t with
+  | SLeaf k => [k]
+  | SSeq l => (fix go (l : list sinks) : list mkind := match l with [] => [] | m :: r => leaf_kinds m ++ go r end) l
+  end.
+Definition seq_flatten (t : sinks) : sinks := SSeq (map SLeaf (leaf_kinds t)).
+Definition flat_sinks (m : nat) : sinks := SSeq (repeat (SLeaf MConstRef) m).
 
 (* logger::log(s, r):  instance().Sink::sink(s, instance().Formatter::format(r)) *)
 Definition log_record (cfg : config) (lg : logger) (s : sev) (r : record) : list event :=
-  Format r :: sink_seq (lg_sinks lg) s (c_fmt cfg r).
+  Format r :: fst (sink_tree (lg_sink lg) s (c_fmt cfg r) 0).
 
 (* ---------------------------------------------------------------- stream.hpp: the stream objects *)
 
